@@ -61,6 +61,8 @@ func answerQuery(root, copy2 stackage.Stack, q map[string]any) (ans any) {
 			return "err"
 		}
 		return "nil"
+	case "Less":
+		return b2s(root.Less(argInt(q["i"]), argInt(q["j"])))
 	case "Valid":
 		if root.Valid() != nil {
 			return "err"
@@ -119,6 +121,9 @@ func cmdCQueries(args []string) {
 			{"op": "Front"}, {"op": "Back"}, {"op": "Unmarshal"}, {"op": "IsEqual"}, {"op": "Valid"}}
 		for _, i := range []int{-2, -1, 0, 1, 2, 6} {
 			queries = append(queries, map[string]any{"op": "Index", "i": i})
+		}
+		for k := 0; k < 8; k++ {
+			queries = append(queries, map[string]any{"op": "Less", "i": rng.Intn(7) - 2, "j": rng.Intn(7) - 2})
 		}
 		for k := 0; k < 8; k++ {
 			n := 1 + rng.Intn(4)
